@@ -85,18 +85,20 @@ theorem withinRangeU32_iff (v target margin : Int) (hm : 0 ≤ margin)
 /-- an entry carries the keys derived for its own epoch -/
 def EntryOk {K : Type} (derive : Int → K) (e : Entry K) : Prop := e.keys = derive e.epoch
 
-/-- every entry stored in the cache slot or held by the decryptor is consistent -/
+/-- every entry stored in the cache slot or held by any decryptor is consistent -/
 def StateOk {K : Type} (derive : Int → K) (s : State K) : Prop :=
-  (∀ e, s.cache = some e → EntryOk derive e) ∧ (∀ e, s.held = some e → EntryOk derive e)
+  (∀ e, s.cache = some e → EntryOk derive e) ∧ (∀ dec e, s.held dec = some e → EntryOk derive e)
 
 theorem empty_ok {K : Type} {derive : Int → K} : StateOk derive State.empty := by
-  constructor <;> intro e h <;> simp [State.empty] at h
+  constructor
+  · intro e h; simp [State.empty] at h
+  · intro dec e h; simp [State.empty] at h
 
-theorem fresh_ok {K : Type} (derive : Int → K) (now : Int) : EntryOk derive (fresh derive now) := rfl
+theorem fresh_ok {K : Type} (derive : Int → K) (now : Instant) : EntryOk derive (fresh derive now) := rfl
 
-theorem getCached_ok {K : Type} (validNs : Int) (derive : Int → K) (c : Option (Entry K)) (now j : Int)
+theorem getCached_ok {K : Type} (validNs : Int) (derive : Int → K) (c : Option (Entry K)) (now : Instant) (j : Int)
     (hc : ∀ e, c = some e → EntryOk derive e) :
-    (getCached validNs derive c now j).1.epoch = epoch now ∧
+    (getCached validNs derive c now j).1.epoch = epoch now.wall ∧
     EntryOk derive (getCached validNs derive c now j).1 ∧
     (∀ e, (getCached validNs derive c now j).2 = some e → EntryOk derive e) := by
   unfold getCached
@@ -116,7 +118,7 @@ theorem getCached_ok {K : Type} (validNs : Int) (derive : Int → K) (c : Option
       subst h
       exact fresh_ok derive now
     · simp only [hx, if_false]
-      have he : e0.epoch = epoch now := by
+      have he : e0.epoch = epoch now.wall := by
         simp only [expired, not_or, Decidable.not_not] at hx
         exact hx.1
       refine ⟨he, hc e0 rfl, ?_⟩
@@ -125,9 +127,19 @@ theorem getCached_ok {K : Type} (validNs : Int) (derive : Int → K) (c : Option
       subst h
       exact hc e0 rfl
 
+theorem setHeld_ok {K : Type} (derive : Int → K) (held : Nat → Option (Entry K)) (dec : Nat) (e0 : Entry K)
+    (hh : ∀ d e, held d = some e → EntryOk derive e) (h0 : EntryOk derive e0) :
+    ∀ d e, setHeld held dec e0 d = some e → EntryOk derive e := by
+  intro d e h
+  simp only [setHeld] at h
+  split at h
+  · simp only [Option.some.injEq] at h
+    subst h; exact h0
+  · exact hh d e h
+
 theorem step_ok {K : Type} (validNs : Int) (derive : Int → K) (s : State K) (hs : StateOk derive s) (op : Op) :
-    (step validNs derive s op).1.epoch = epoch op.now ∧
-    (step validNs derive s op).1.keys = derive (epoch op.now) ∧
+    (step validNs derive s op).1.epoch = epoch op.now.wall ∧
+    (step validNs derive s op).1.keys = derive (epoch op.now.wall) ∧
     StateOk derive (step validNs derive s op).2 := by
   obtain ⟨hc, hh⟩ := hs
   cases op with
@@ -137,32 +149,29 @@ theorem step_ok {K : Type} (validNs : Int) (derive : Int → K) (s : State K) (h
     · simp only [step, Op.now]
       rw [← h1]; exact h2
     · exact ⟨h3, hh⟩
-  | tryDecrypt now j =>
+  | tryDecrypt dec now j =>
     obtain ⟨h1, h2, h3⟩ := getCached_ok validNs derive s.cache now j hc
     have viaCache :
-        (getCached validNs derive s.cache now j).1.epoch = epoch now ∧
-        (getCached validNs derive s.cache now j).1.keys = derive (epoch now) ∧
-        StateOk derive ⟨(getCached validNs derive s.cache now j).2, some (getCached validNs derive s.cache now j).1⟩ := by
-      refine ⟨h1, by rw [← h1]; exact h2, h3, ?_⟩
-      intro e h
-      simp only [Option.some.injEq] at h
-      subst h
-      exact h2
+        (getCached validNs derive s.cache now j).1.epoch = epoch now.wall ∧
+        (getCached validNs derive s.cache now j).1.keys = derive (epoch now.wall) ∧
+        StateOk derive ⟨(getCached validNs derive s.cache now j).2,
+          setHeld s.held dec (getCached validNs derive s.cache now j).1⟩ :=
+      ⟨h1, by rw [← h1]; exact h2, h3, setHeld_ok derive s.held dec _ hh h2⟩
     simp only [step, Op.now, tryEntry]
-    cases hheld : s.held with
+    cases hheld : s.held dec with
     | none => simpa using viaCache
     | some h =>
       dsimp only
-      by_cases he : h.epoch = epoch now
+      by_cases he : h.epoch = epoch now.wall
       · rw [if_pos he]
         refine ⟨he, ?_, hc, hh⟩
-        have := hh h hheld
+        have := hh dec h hheld
         rw [← he]; exact this
       · rw [if_neg he]
         exact viaCache
 
 theorem run_ok {K : Type} (validNs : Int) (derive : Int → K) (s : State K) (hs : StateOk derive s) (ops : List Op) :
-    ∀ p ∈ run validNs derive s ops, p.2.epoch = epoch p.1 ∧ p.2.keys = derive (epoch p.1) := by
+    ∀ p ∈ run validNs derive s ops, p.2.epoch = epoch p.1.wall ∧ p.2.keys = derive (epoch p.1.wall) := by
   induction ops generalizing s with
   | nil => intro p h; simp [run] at h
   | cons op ops ih =>
@@ -172,5 +181,44 @@ theorem run_ok {K : Type} (validNs : Int) (derive : Int → K) (s : State K) (hs
     cases h with
     | inl h => subst h; exact ⟨h1, h2⟩
     | inr h => exact ih _ h3 p h
+
+/-- the decryptor goes back to the cache exactly when `refetch` says so -/
+theorem tryEntry_refetch {K : Type} (validNs : Int) (derive : Int → K) (s : State K) (dec : Nat) (now : Instant) (j : Int) :
+    tryEntry validNs derive s dec now j =
+      if refetch (s.held dec) now then
+        ((getCached validNs derive s.cache now j).1,
+         ⟨(getCached validNs derive s.cache now j).2, setHeld s.held dec (getCached validNs derive s.cache now j).1⟩)
+      else ((s.held dec).getD (fresh derive now), s) := by
+  simp only [tryEntry, refetch]
+  cases s.held dec with
+  | none => simp
+  | some h =>
+    by_cases he : h.epoch = epoch now.wall
+    · simp [he]
+    · simp [he]
+
+theorem conc_ok {K : Type} (validNs : Int) (derive : Int → K) (pool : List (Entry K)) (used : List (Instant × Entry K))
+    (h : ConcRun validNs derive pool used) :
+    (∀ e ∈ pool, EntryOk derive e) ∧
+    ∀ p ∈ used, p.2.epoch = epoch p.1.wall ∧ p.2.keys = derive (epoch p.1.wall) := by
+  induction h with
+  | nil => exact ⟨by simp, by simp⟩
+  | op pool used c hd hc hh o prev ih =>
+    obtain ⟨ihp, ihu⟩ := ih
+    have hs : StateOk derive (⟨c, fun _ => hd⟩ : State K) :=
+      ⟨fun e he => ihp e (hc e he), fun _ e he => ihp e (hh e he)⟩
+    obtain ⟨h1, h2, _⟩ := step_ok validNs derive _ hs o
+    refine ⟨?_, ?_⟩
+    · intro e he
+      simp only [List.mem_cons] at he
+      rcases he with rfl | he
+      · show (step validNs derive _ o).1.keys = derive (step validNs derive _ o).1.epoch
+        rw [h2, h1]
+      · exact ihp e he
+    · intro p hp
+      simp only [List.mem_cons] at hp
+      rcases hp with rfl | hp
+      · exact ⟨h1, h2⟩
+      · exact ihu p hp
 
 end Mieru.Proofs.C08
